@@ -168,6 +168,21 @@ class Taint:
                         self.env[x.id] = val
                 return
             self.ev(v)
+        elif isinstance(st, ast.Expr) and isinstance(st.value, ast.Call) and norm(st.value.func).split('.')[-1] in ('copyto', 'putmask', 'place') and st.value.args:
+            # np.copyto(x, nan, where=isinf(x)) / np.putmask(x, isinf(x), nan) / np.place(x, isinf(x), nan): the in-place forms of the mapping
+            c = st.value
+            nm = norm(c.func).split('.')[-1]
+            tgt = c.args[0]
+            if nm == 'copyto':
+                val_ = c.args[1] if len(c.args) > 1 else None
+                mask_ = next((k.value for k in c.keywords if k.arg == 'where'), None)
+            else:
+                mask_ = c.args[1] if len(c.args) > 1 else None
+                val_ = c.args[2] if len(c.args) > 2 else None
+            if isinstance(tgt, ast.Name) and val_ is not None and mask_ is not None and norm(val_).split('.')[-1].lower() == 'nan' and _isinf_of(mask_) == tgt.id:
+                self.env[tgt.id] = CLEAN
+            else:
+                self.ev(st.value)
         elif isinstance(st, ast.AugAssign):
             val = self.ev(st.value)
             if isinstance(st.op, (ast.Div, ast.FloorDiv)):
